@@ -21,12 +21,14 @@ pub struct Doc { pub triples: Vec<(LT, u32, LT)>, pub seed: u64 }
 #[derive(Serialize, Deserialize, Clone, Debug)]
 pub struct LoadCase { pub hash_seed: u64, pub pool: usize, pub rayon_seed: u64, pub cpus: i64, pub shuttle_seed: u64, pub prior: Vec<(LT, u32, LT, Option<u32>)>, pub prior_terms: u32, pub doc: Doc, pub formats: Vec<Fmt>, pub twice: bool, pub comments: bool, #[serde(default)] pub n3_literals: bool, #[serde(default)] pub nq_graphs: bool, #[serde(default)] pub lists: bool, #[serde(default)] pub prior_prefix_clash: bool,
     /// an older snapshot of the database's own dictionary is merged back (Dictionary::merge, a no-op for the stored data) before the load
-    #[serde(default)] pub merge_snapshot: bool }
+    #[serde(default)] pub merge_snapshot: bool,
+    /// the store held this very document before (loaded as N-Triples) and its default graph was cleared (1) or everything dropped graph by graph (2)
+    #[serde(default)] pub reload_after_clear: u8 }
 pub struct C13;
 
 /// escaped-literal families: backslash and quote in the middle, value ending in a backslash, value ending in a quote
-fn canon(t: &LT) -> String { match t { LT::Quoted(a, b, c) => format!("<< http://e/n{} http://e/p{} http://e/n{} >>", a, b, c), LT::Iri2(n) => format!("http://f/n{}", n), LT::Iri(n) => format!("http://e/n{}", n), LT::Lit(n) => if n % 7 == 3 { format!("v#{}", n) } else { format!("v{}", n) }, LT::EscLit(n) => match n % 3 { 0 => format!("a\"b\\c{}", n), 1 => format!("dir{}\\", n), _ => format!("say{}\"", n) }, LT::Bn(n) => format!("_:b{}", n) } }
-fn nt(t: &LT) -> String { match t { LT::Quoted(a, b, c) => format!("<< <http://e/n{}> <http://e/p{}> <http://e/n{}> >>", a, b, c), LT::Iri2(n) => format!("<http://f/n{}>", n), LT::Iri(n) => format!("<http://e/n{}>", n), LT::Lit(n) => if n % 7 == 3 { format!("\"v#{}\"", n) } else { format!("\"v{}\"", n) }, LT::EscLit(n) => match n % 3 { 0 => format!("\"a\\\"b\\\\c{}\"", n), 1 => format!("\"dir{}\\\\\"", n), _ => format!("\"say{}\\\"\"", n) }, LT::Bn(n) => format!("_:b{}", n) } }
+fn canon(t: &LT) -> String { match t { LT::Quoted(a, b, c) => format!("<< http://e/n{} http://e/p{} http://e/n{} >>", a, b, c), LT::Iri2(n) => format!("http://f/n{}", n), LT::Iri(n) => format!("http://e/n{}", n), LT::Lit(n) => if n % 7 == 3 { format!("v#{}", n) } else if n % 5 == 1 { format!("v{}\u{e9}\u{20ac}\u{6f22}\u{1F600}", n) } else { format!("v{}", n) }, LT::EscLit(n) => match n % 3 { 0 => format!("a\"b\\c{}", n), 1 => format!("dir{}\\", n), _ => format!("say{}\"", n) }, LT::Bn(n) => format!("_:b{}", n) } }
+fn nt(t: &LT) -> String { match t { LT::Quoted(a, b, c) => format!("<< <http://e/n{}> <http://e/p{}> <http://e/n{}> >>", a, b, c), LT::Iri2(n) => format!("<http://f/n{}>", n), LT::Iri(n) => format!("<http://e/n{}>", n), LT::Lit(n) => if n % 7 == 3 { format!("\"v#{}\"", n) } else if n % 5 == 1 { format!("\"v{}\u{e9}\u{20ac}\u{6f22}\u{1F600}\"", n) } else { format!("\"v{}\"", n) }, LT::EscLit(n) => match n % 3 { 0 => format!("\"a\\\"b\\\\c{}\"", n), 1 => format!("\"dir{}\\\\\"", n), _ => format!("\"say{}\\\"\"", n) }, LT::Bn(n) => format!("_:b{}", n) } }
 /// predicates 100.. are RDF / RDFS schema properties (the RDF/XML loader has hard-coded branches for some of their element names)
 fn pred(p: u32) -> String { match p { 100 => "http://www.w3.org/2000/01/rdf-schema#label".into(), 101 => "http://www.w3.org/2000/01/rdf-schema#subClassOf".into(), 102 => "http://www.w3.org/1999/02/22-rdf-syntax-ns#type".into(), 103 => "http://www.w3.org/2000/01/rdf-schema#comment".into(), _ => format!("http://e/p{}", p) } }
 /// prefixed name of a predicate (Turtle / N3 / RDF-XML element name)
@@ -146,7 +148,7 @@ pub fn load(db: &mut SparqlDatabase, fmt: &Fmt, text: &str, shuttle_seed: u64, c
 impl Prop for C13 {
     type Case = LoadCase;
     fn id(&self) -> &'static str { "C13" }
-    fn expected_counters(&self) -> Vec<&'static str> { vec!["fault.shuttle_scheduled_xml_workers", "probe.document_loaded_twice", "probe.document_spans_several_loader_chunks", "probe.load_into_populated_store", "probe.database_binds_the_documents_prefixes_differently", "probe.schema_property_elements", "probe.older_dictionary_snapshot_merged_before_load", "fault.pool_split_into_several_jobs", "fault.jobs_run_out_of_index_order"] }
+    fn expected_counters(&self) -> Vec<&'static str> { vec!["fault.shuttle_scheduled_xml_workers", "probe.document_loaded_twice", "probe.document_spans_several_loader_chunks", "probe.load_into_populated_store", "probe.database_binds_the_documents_prefixes_differently", "probe.schema_property_elements", "probe.older_dictionary_snapshot_merged_before_load", "probe.same_triples_loaded_and_cleared_before", "fault.pool_split_into_several_jobs", "fault.jobs_run_out_of_index_order"] }
     fn budget(&self, tier: Tier) -> Budget { match tier { Tier::Quick => Budget { runs: 4000, wall_s: 60, recheck: 20 }, Tier::Thorough => Budget { runs: 300_000, wall_s: 1000, recheck: 60 } } }
     fn hash_seed(&self, c: &LoadCase) -> u64 { c.hash_seed }
     fn gen(&self, seed: u64, _i: u64, _t: Tier) -> LoadCase {
@@ -165,7 +167,7 @@ impl Prop for C13 {
         let all = [Fmt::NTriples, Fmt::NQuads, Fmt::Turtle, Fmt::N3, Fmt::RdfXml];
         let formats: Vec<Fmt> = if n >= 8000 { vec![Fmt::RdfXml, r.pick(&all).clone()] } else if big { vec![r.pick(&all).clone(), r.pick(&all).clone()] } else { all.to_vec() };
         LoadCase { hash_seed: Rng::sub(seed, "hash").next(), pool: *cfg.pick(&[1, 2, 3, 4, 8, 16]), rayon_seed: Rng::sub(seed, "rayon").next(), cpus: 1 + cfg.below(16) as i64, shuttle_seed: Rng::sub(seed, "shuttle").next(),
-            prior, prior_terms: if prior_kind == 2 { r.below(40) as u32 } else { 0 }, doc: Doc { triples, seed: r.next() }, formats, twice: cfg.chance(1, 4), comments: cfg.chance(1, 2), n3_literals: cfg.chance(1, 10), nq_graphs: cfg.chance(1, 2), lists: cfg.chance(1, 3), prior_prefix_clash: cfg.chance(1, 3), merge_snapshot: cfg.chance(1, 4) }
+            prior, prior_terms: if prior_kind == 2 { r.below(40) as u32 } else { 0 }, doc: Doc { triples, seed: r.next() }, formats, twice: cfg.chance(1, 4), comments: cfg.chance(1, 2), n3_literals: cfg.chance(1, 10), nq_graphs: cfg.chance(1, 2), lists: cfg.chance(1, 3), prior_prefix_clash: cfg.chance(1, 3), merge_snapshot: cfg.chance(1, 4), reload_after_clear: if cfg.chance(1, 5) { 1 + cfg.below(2) as u8 } else { 0 } }
     }
     fn exec(&self, c: &LoadCase, ctx: &mut Ctx) -> Option<Violation> {
         rayon::sim_configure(c.rayon_seed, c.pool);
@@ -177,6 +179,11 @@ impl Prop for C13 {
 
             let mut db = SparqlDatabase::new();
             // prior content: terms in the dictionary, quads in default and named graphs, a prefix
+            if c.reload_after_clear > 0 {
+                db.parse_ntriples_and_add(&render(&c.doc, &Fmt::NTriples, false, false, false));
+                if c.reload_after_clear == 1 { db.dataset_index.clear_graph(GraphId::Default); } else { for g in db.dataset_index.graphs() { db.dataset_index.drop_graph(g); } }
+                ctx.hit("probe.same_triples_loaded_and_cleared_before");
+            }
             for i in 0..c.prior_terms { db.encode_term_star(&format!("<http://e/pad{}>", i)); }
             let snapshot = if c.merge_snapshot { Some(db.dictionary.read().unwrap().clone()) } else { None };
             db.prefixes.insert("old".into(), "http://old/".into());
@@ -238,6 +245,7 @@ impl Prop for C13 {
         if c.lists { out.push(LoadCase { lists: false, ..c.clone() }); }
         if c.prior_prefix_clash { out.push(LoadCase { prior_prefix_clash: false, ..c.clone() }); }
         if c.merge_snapshot { out.push(LoadCase { merge_snapshot: false, ..c.clone() }); }
+        if c.reload_after_clear > 0 { out.push(LoadCase { reload_after_clear: 0, ..c.clone() }); }
         if c.doc.triples.iter().any(|(_, p, _)| *p >= 100) { let t = c.doc.triples.iter().map(|(s, p, o)| (s.clone(), if *p >= 100 { *p - 100 } else { *p }, o.clone())).collect(); out.push(LoadCase { doc: Doc { triples: t, seed: c.doc.seed }, ..c.clone() }); }
         if c.pool != 1 { out.push(LoadCase { pool: 1, rayon_seed: 0, ..c.clone() }); }
         if c.cpus != 1 { out.push(LoadCase { cpus: 1, ..c.clone() }); }
